@@ -154,7 +154,7 @@ def c10_jobs(tier):
 CHECKS["C10"] = {
     "engine": "E2 history explorer",
     "jobs": c10_jobs,
-    "rule": "state = history over {update by durations / by time points with 5 problems (N = 1, 2, 3, 5 whose durations are bit-identical prefixes of one another, and N = 3' with other durations), getEnergy, getEnergyGrad, partial gradients, propagateGrad(unit / dense), evaluate grid} on one spline object; after EVERY transition ALL observables (coefficients, knot times, energy, energy gradients, partials, propagateGrad for two upstream vectors, evaluations at all orders) are compared bitwise with a freshly constructed spline given only the latest inputs; canonical key = every private member incl. factor caches and workspaces; optimizer workspaces: one Workspace shared by evaluations of four optimizers (A: N=2 / B: N=4 / C: N=2 with other data, flags, start time and energy weight / D: same layout, durations and inner waypoints as A but other FIXED data, evaluated at A's bit-identical decision vectors) x 2 decision vectors x {2-cost, 3-cost overload}: after EVERY history every possible next call on the reused workspace equals the same call on a fresh workspace (cost, gradient, workspace spline; bitwise); non-trivial = histories of length >= 2",
+    "rule": "state = history over {update by durations / by time points with 5 problems (N = 1, 2, 3, 5 whose durations are bit-identical prefixes of one another, and N = 3' with other durations), getEnergy, getEnergyGrad, partial gradients, propagateGrad(unit / dense), evaluate grid} on one spline object; after EVERY transition ALL observables (coefficients, knot times, energy, energy gradients, partials, propagateGrad for two upstream vectors, evaluations at all orders) are compared bitwise with a freshly constructed spline given only the latest inputs; canonical key = every private member incl. factor caches and workspaces; optimizer workspaces: one Workspace shared by evaluations of four optimizers (A: N=2 / B: N=4 / C: N=2 with other data, flags, start time and energy weight / D: identical to A except for the FIXED boundary accelerations/jerk, evaluated at A's bit-identical decision vectors) x 2 decision vectors x {2-cost, 3-cost overload}: after EVERY history every possible next call on the reused workspace equals the same call on a fresh workspace (cost, gradient, workspace spline; bitwise); non-trivial = histories of length >= 2",
     "bounds": {"quick": "splines: 3 orders x DIM {1,3,4}: BFS to depth 6 or fixpoint; workspaces: 3 orders, BFS to depth 4", "thorough": "splines: BFS to depth 10 or fixpoint; workspaces: 3 orders, BFS to depth 5 or fixpoint"},
     "thresholds": {"all comparisons": "bitwise"},
     "assumptions": ASSUME_COMMON + ["canonical key reads private members through -fno-access-control"],
